@@ -17,6 +17,11 @@ func replay(p *Pipeline, rf *replayFile, path string) int {
 		reqs := p.buildPluginAndRequests()
 		p.setupVariant(rf.Variant, reqs, true)
 		bin = p.buildEngA(rf.Variant, rf.Build)
+	case "C13":
+		p.buildPluginAndRequests()
+		var params string
+		bin, _, params = p.buildEngC()
+		rf.Params = params
 	default:
 		fail("replay: unknown property %s", rf.Property)
 	}
